@@ -41,7 +41,7 @@ bool exclude_known(Info *info, const char *key) {
 struct Stats {
   uint64_t evaluations = 0, held = 0, violations = 0, out_of_domain = 0, inconclusive = 0, nontrivial = 0;
   std::unordered_set<uint64_t> fps;
-  std::map<std::string, uint64_t> labels, excluded;
+  std::map<std::string, uint64_t> labels, excluded, counters;
   std::vector<std::string> samples;
   std::string mode;
 } g;
@@ -96,6 +96,9 @@ void dump_stats() {
   fprintf(f, "},\n\"excluded\":{");
   first = true;
   for (auto &kv : g.excluded) { fprintf(f, "%s\"%s\":%llu", first ? "" : ",", jesc(kv.first).c_str(), (unsigned long long)kv.second); first = false; }
+  fprintf(f, "},\n\"counters\":{");
+  first = true;
+  for (auto &kv : g.counters) { fprintf(f, "%s\"%s\":%llu", first ? "" : ",", jesc(kv.first).c_str(), (unsigned long long)kv.second); first = false; }
   fprintf(f, "},\n\"samples\":[");
   first = true;
   for (auto &s : g.samples) { fprintf(f, "%s\"%s\"", first ? "" : ",\n", jesc(s).c_str()); first = false; }
@@ -142,6 +145,7 @@ int run_one(const uint8_t *t, size_t n, bool count, Info *out) {
     else g.out_of_domain++;
     if (info.inconclusive) g.inconclusive++;
     for (auto &kv : info.excluded) g.excluded[kv.first] += kv.second;
+    for (auto &kv : info.counters) g.counters[kv.first] += kv.second;
     for (const char *l : info.labels) g.labels[l]++;
     if (info.nontrivial && v != OUT_OF_DOMAIN) {
       g.nontrivial++;
